@@ -58,6 +58,9 @@ def gen_dataset(rng, cfg):
         if cfg.falsy and rng.random() < cfg.falsy:
             # 'b' is the attribute used as a *value* of arbitrary type (compared with ==/!=, selected, passed on)
             attrs['b'] = rng.choice(FALSY)
+        if cfg.falsy:
+            # 'd' is a DICT {0: v0, 1: v1} whose entries are often falsy (None included); only ever indexed: x.d[k]
+            attrs['d'] = ('dm',) + tuple(rng.choice(FALSY + [('n',), ('i', 1), ('i', 2)]) for _ in range(2))
         objs.append((i, cls, attrs))
     return classes, objs
 
